@@ -30,7 +30,7 @@ var intCodecs = map[string]intCodec{
 	"U16": {"U16", encode.U16{}, 2, func(v uint64) interface{} { return uint16(v) }},
 	"U32": {"U32", encode.U32{}, 4, func(v uint64) interface{} { return uint32(v) }},
 	"U64": {"U64", encode.U64{}, 8, func(v uint64) interface{} { return uint64(v) }},
-	"Int": {"Int", encode.Int{}, 8, func(v uint64) interface{} { return int(int64(v)) }},
+	"Int": {"Int", encode.Int{}, nativeIntBytes, nativeInt},
 }
 
 // encLaw checks the encoder laws for one value whose reference encoding is known.
